@@ -79,6 +79,9 @@ def slim(r):
             "emit": r.get("emit", "none"), "artefacts": bool(r.get("artefacts_present"))}
 
 
+FEATS = []     # the hand-written feature programs used by the last run (filled by mutate_and_observe)
+
+
 def mutate_and_observe(d, gen, repo, tier, avoid):
     """Runs `vh mutate --judge` in parallel: generated programs split over the jobs, the repository program sharded by site."""
     per_gen = 28 if tier == "quick" else 32
@@ -90,6 +93,20 @@ def mutate_and_observe(d, gen, repo, tier, avoid):
             inp = os.path.join(d, f"in-gen-{i}.ndjson")
             write_ndjson(inp, c)
             tasks.append(("gen", i, inp, ["--per-program", per_gen]))
+    # hand-written feature programs (corpus/c06, corpus/c01): small, so every applicable site is mutated
+    import glob
+    feats = FEATS
+    del feats[:]
+    for path in sorted(glob.glob(os.path.join(VERIF, "corpus", "c06", "*.sam"))) + sorted(glob.glob(os.path.join(VERIF, "corpus", "c01", "*.sam"))):
+        feats.append({"id": 100000 + len(feats), "origin": "corpus:" + os.path.relpath(path, VERIF), "entry": "Main",
+                      "sources": {"Main": open(path).read()}})
+    if tier == "quick":
+        del feats[12:]
+    for i, c in enumerate([feats[j::4] for j in range(4)]):
+        if c:
+            inp = os.path.join(d, f"in-feat-{i}.ndjson")
+            write_ndjson(inp, c)
+            tasks.append(("gen", 100 + i, inp, ["--per-program", 400]))
     rin = os.path.join(d, "in-repo.ndjson")
     write_ndjson(rin, [repo])
     for i in range(JOBS):
@@ -250,7 +267,7 @@ def run(tier):
     base = baseline(d, gen, repo, tier)
     for i, r in enumerate(base):
         r["id"] = len(recs) + i
-    by_id = {p["id"]: p for p in gen}
+    by_id = {p["id"]: p for p in gen + FEATS}
     by_id[0] = repo
     # 3. the verdict, by TLC
     bad = judge(recs + base, "main", d, stats)
